@@ -257,6 +257,11 @@ esl_msafile_selex_Read(ESL_MSAFILE *afp, ESL_MSA **ret_msa)
   /* selex_read_block took care of destroying the block! */
   if (status != eslEOF || nblocks == 0) goto ERROR;
 
+  /* selex_append_block() tolerates a block that has names but no sequence or annotation text at all;
+   * if every block was like that, no row was ever allocated and there is no alignment to return.
+   */
+  if (msa->alen == 0) ESL_XFAIL(eslEFORMAT, afp->errmsg, "no aligned sequence data found in SELEX input");
+
   msa->offset = 0;
   if (( status = esl_msa_SetDefaultWeights(msa)) != eslOK) goto ERROR;
   *ret_msa = msa;
@@ -572,6 +577,8 @@ selex_first_block(ESL_MSAFILE *afp, ESL_SELEX_BLOCK *b, ESL_MSA **ret_msa)
       if (nss > 1)      { selex_ErrorInBlock(afp, b, idx); ESL_XFAIL(eslEFORMAT, afp->errmsg, "Too many #=SS lines for seq");   }
       if (nsa > 1)      { selex_ErrorInBlock(afp, b, idx); ESL_XFAIL(eslEFORMAT, afp->errmsg, "Too many #=SA lines for seq");   }
     }
+
+  if (nseq == 0) { selex_ErrorInBlock(afp, b, 0); ESL_XFAIL(eslEFORMAT, afp->errmsg, "first block contains annotation lines but no sequence lines"); }
 
   if ( afp->abc && (msa = esl_msa_CreateDigital(afp->abc, nseq, -1)) == NULL) { status = eslEMEM; goto ERROR; } /* a growable MSA */
   if (!afp->abc && (msa = esl_msa_Create(                 nseq, -1)) == NULL) { status = eslEMEM; goto ERROR; } 
